@@ -755,7 +755,11 @@ class Phase(Angle):
                 # downgrading ourself to a quantity and see if things work.
                 pass
 
-        elif function in {np.floor_divide, np.remainder, np.divmod} and basic_real:
+        elif (
+            function in {np.floor_divide, np.remainder, np.divmod}
+            and basic_real
+            and (i_self == 0 or isinstance(inputs[0], u.Quantity))
+        ):
             fd_out = None
             if out is not None:
                 if function is np.divmod:
@@ -766,16 +770,32 @@ class Phase(Angle):
             elif phase_out is not None and function is np.floor_divide:
                 return NotImplemented
 
-            fd = np.floor_divide(self.cycle, inputs[1], out=fd_out)
-            corr = Phase.from_angles(inputs[1], factor=fd, out=phase_out)
+            if i_self != 0:
+                # Only the divisor is a Phase: promote the dividend, so that
+                # the branch below sees a Phase being divided.
+                dividend = Phase.from_angles(inputs[0])
+                return function(dividend, *inputs[1:], **kwargs)
+
+            divisor = inputs[1]
+            if isinstance(divisor, Phase):
+                # Use the divisor as a plain angle for the (approximate)
+                # quotient, which avoids re-entering this branch, but keep
+                # both of its parts for the exact correction.
+                divisor_parts = (divisor["int"], divisor["frac"])
+                divisor = divisor.cycle
+            else:
+                divisor_parts = (divisor,)
+
+            fd = np.floor_divide(self.cycle, divisor, out=fd_out)
+            corr = Phase.from_angles(*divisor_parts, factor=fd, out=phase_out)
             remainder = np.subtract(self, corr, out=corr)
-            fdx = np.floor_divide(remainder.cycle, inputs[1])
+            fdx = np.floor_divide(remainder.cycle, divisor)
             # This can likely be optimized...
             # Note: one cannot just loop, because rounding of exact 0.5.
             # TODO: check this method is really correct.
             if np.count_nonzero(fdx):
                 fd += fdx
-                corr = Phase.from_angles(inputs[1], factor=fd, out=corr)
+                corr = Phase.from_angles(*divisor_parts, factor=fd, out=corr)
                 remainder = np.subtract(self, corr, out=corr)
 
             if function is np.floor_divide:
